@@ -1,0 +1,270 @@
+//go:build verif
+
+package encoding
+
+import "bytes"
+
+// C14, "equality coincides with equality of encodings". Contracts for the gcv verifier (/verif).
+// The encoding of a component is the one of the packet format (zz_verif_contracts.go, written for C03): TLV-TYPE and
+// TLV-LENGTH as shortest variable-length numbers, then the value (specCompAt / specCompLen); a name is the concatenation
+// of its components' encodings (component i at offset specNameLen(n, i)) behind the Name TL header.
+
+// A-MEM: a component value that exists in memory is shorter than 2^48 bytes (so the size of its encoding does not wrap).
+func specValFits(c Component) bool { return len(c.Val) <= 281474976710656 }
+
+// A variable-length number occupies 1 to 9 bytes.
+//
+//@ func lemmaTLLenRange
+//@   ensures 1 <= specTLLen(x) && specTLLen(x) <= 9
+func lemmaTLLenRange(x uint64) {}
+
+// ghostTLLen: specTLLen for ghost Go code of lemmas in which the spec function is opaque.
+//
+//@ func ghostTLLen
+//@   ensures result == specTLLen(x) && 1 <= result && result <= 9
+func ghostTLLen(x uint64) int { return specTLLen(x) }
+
+// Two variable-length numbers of the same size that decode to the same value consist of the same bytes (uniqueness of
+// the big-endian representation; the first byte is determined by the size).
+//
+//@ func lemmaTLBytesEq
+//@   requires 0 <= ao && 0 <= bo && ao+specTLSize(a, ao) <= len(a) && bo+specTLSize(b, bo) <= len(b)
+//@   requires specTLSize(a, ao) == specTLSize(b, bo) && specTLVal(a, ao) == specTLVal(b, bo)
+//@   ensures specBytesEq9(a, ao, b, bo, specTLSize(a, ao))
+func lemmaTLBytesEq(a []byte, ao int, b []byte, bo int) {}
+
+// Two byte strings copied to the same position p of two buffers: the strings are equal iff the buffers agree on that
+// range (one lemma per direction).
+//
+//@ func lemmaBytesAtEqFwd
+//@   requires 0 <= p && len(va) == len(vb) && len(va) <= 281474976710656 && p <= 281474976710656 && bytesAt(ba, p, va) && bytesAt(bb, p, vb)
+//@   requires forallIn(0, len(va), func(i int) bool { return va[i] == vb[i] })
+//@   ensures forallIn(p, p+len(va), func(j int) bool { return ba[j] == bb[j] })
+func lemmaBytesAtEqFwd(ba, bb []byte, p int, va, vb []byte) {}
+
+//@ func lemmaBytesAtEqBwd
+//@   option relative-index
+//@   requires 0 <= p && len(va) == len(vb) && len(va) <= 281474976710656 && p <= 281474976710656 && p+len(va) <= len(ba) && p+len(va) <= len(bb)
+//@   requires forallIn(0, len(va), func(i int) bool { return va[i] == ba[p+i] })
+//@   requires forallIn(0, len(va), func(i int) bool { return vb[i] == bb[p+i] })
+//@   requires forallIn(0, len(va), func(i int) bool { return ba[p+i] == bb[p+i] })
+//@   ensures forallIn(0, len(va), func(i int) bool { return va[i] == vb[i] })
+func lemmaBytesAtEqBwd(ba, bb []byte, p int, va, vb []byte) {}
+
+// Components, direction "equal components have identical encodings" (at the same offset o of two buffers).
+//
+//@ func lemmaCompEncEqFwd
+//@   opaque specTLLen specTLSize specTLVal
+//@   requires specValFits(a) && specValFits(b)
+//@   requires 0 <= o && o <= 281474976710656 && o <= len(ba) && o <= len(bb) && specCompLen(a) <= len(ba)-o && specCompLen(b) <= len(bb)-o
+//@   requires specCompAt(ba, o, a) && specCompAt(bb, o, b) && specEqComp(a, b)
+//@   ensures specCompLen(a) == specCompLen(b)
+//@   ensures forallIn(o, o+specCompLen(a), func(j int) bool { return ba[j] == bb[j] })
+func lemmaCompEncEqFwd(ba, bb []byte, o int, a, b Component) {
+	lemmaTLLenRange(uint64(a.Typ))
+	lemmaTLLenRange(uint64(len(a.Val)))
+	lemmaTLBytesEq(ba, o, bb, o)
+	s1 := ghostTLLen(uint64(a.Typ))
+	lemmaTLBytesEq(ba, o+s1, bb, o+s1)
+	s2 := ghostTLLen(uint64(len(a.Val)))
+	lemmaBytesAtEqFwd(ba, bb, o+s1+s2, a.Val, b.Val)
+}
+
+// Identical encodings carry the same type and the same value length.
+//
+//@ func lemmaCompEncHdrEq
+//@   opaque specTLLen specTLSize specTLVal
+//@   requires specValFits(a) && specValFits(b)
+//@   requires 0 <= o && o <= 281474976710656 && o <= len(ba) && o <= len(bb) && specCompLen(a) <= len(ba)-o && specCompLen(b) <= len(bb)-o
+//@   requires specCompAt(ba, o, a) && specCompAt(bb, o, b)
+//@   requires forallIn(o, o+specCompLen(a), func(j int) bool { return ba[j] == bb[j] })
+//@   ensures a.Typ == b.Typ && len(a.Val) == len(b.Val)
+func lemmaCompEncHdrEq(ba, bb []byte, o int, a, b Component) {
+	lemmaTLLenRange(uint64(a.Typ))
+	lemmaTLLenRange(uint64(len(a.Val)))
+	lemmaTLLenRange(uint64(b.Typ))
+	lemmaTLLenRange(uint64(len(b.Val)))
+	s1 := ghostTLLen(uint64(a.Typ))
+	n := s1 + ghostTLLen(uint64(len(a.Val))) + len(a.Val)
+	lemmaTLContent(ba, o, bb, o, n)
+	lemmaTLContent(ba, o+s1, bb, o+s1, n-s1)
+}
+
+// Components, direction "identical encodings are encodings of equal components".
+//
+//@ func lemmaCompEncEqBwd
+//@   opaque specTLLen specTLSize specTLVal
+//@   requires specValFits(a) && specValFits(b)
+//@   requires 0 <= o && o <= 281474976710656 && o <= len(ba) && o <= len(bb) && specCompLen(a) <= len(ba)-o && specCompLen(b) <= len(bb)-o
+//@   requires specCompAt(ba, o, a) && specCompAt(bb, o, b)
+//@   requires forallIn(o, o+specCompLen(a), func(j int) bool { return ba[j] == bb[j] })
+//@   ensures specEqComp(a, b) && specCompLen(a) == specCompLen(b)
+func lemmaCompEncEqBwd(ba, bb []byte, o int, a, b Component) {
+	lemmaTLLenRange(uint64(a.Typ))
+	lemmaTLLenRange(uint64(len(a.Val)))
+	lemmaCompEncHdrEq(ba, bb, o, a, b)
+	s1 := ghostTLLen(uint64(a.Typ))
+	s2 := ghostTLLen(uint64(len(a.Val)))
+	lemmaBytesAtEqBwd(ba, bb, o+s1+s2, a.Val, b.Val)
+}
+
+// "equality coincides with equality of encodings" for components, over the REAL methods: Equal holds exactly when the
+// byte strings returned by Bytes() are identical.
+//
+//@ func lemmaComponentEqualIffSameBytes
+//@   requires specValFits(a) && specValFits(b)
+//@   ensures result
+func lemmaComponentEqualIffSameBytes(a, b Component) bool {
+	ba := a.Bytes()
+	bb := b.Bytes()
+	if a.Equal(b) {
+		lemmaCompEncEqFwd(ba, bb, 0, a, b)
+		return bytes.Equal(ba, bb)
+	}
+	if bytes.Equal(ba, bb) {
+		lemmaCompEncEqBwd(ba, bb, 0, a, b)
+		return false
+	}
+	return true
+}
+
+// ---------------------------------------------------------------------------------------
+// names: equal names have identical encodings (induction on the number of components: the encodings of the first k
+// components tile the range [h, h+specNameLen(n, k)) of the buffer)
+// ---------------------------------------------------------------------------------------
+
+// ghostNameLen: specNameLen as executable ghost code (ghost Go code cannot call a recursive spec function).
+//
+//@ func ghostNameLen
+//@   requires 0 <= k && k <= len(n)
+//@   decreases k
+//@   ensures result == specNameLen(n, k)
+func ghostNameLen(n Name, k int) int {
+	if k <= 0 {
+		return 0
+	}
+	return ghostNameLen(n, k-1) + specCompLen(n[k-1])
+}
+
+// Names that agree on their first k components have encodings of the same size for them.
+//
+//@ func lemmaNameLenEq
+//@   requires 0 <= k && k <= len(a) && k <= len(b) && specEqPrefix(a, b, k)
+//@   decreases k
+//@   ensures specNameLen(a, k) == specNameLen(b, k)
+func lemmaNameLenEq(a, b Name, k int) {
+	if k <= 0 {
+		return
+	}
+	lemmaNameLenEq(a, b, k-1)
+}
+
+//@ func lemmaNameEncEqFwd
+//@   opaque specCompAt specEqComp
+//@   uses lemmaNameLenMono
+//@   requires 0 <= k && k <= len(a) && k <= len(b) && specEqPrefix(a, b, k)
+//@   requires 0 <= h && h <= 16 && h+specNameLen(a, k) <= len(ba) && h+specNameLen(b, k) <= len(bb)
+//@   requires forallIn(0, k, func(i int) bool { return specCompAt(ba, h+specNameLen(a, i), a[i]) })
+//@   requires forallIn(0, k, func(i int) bool { return specCompAt(bb, h+specNameLen(b, i), b[i]) })
+//@   decreases k
+//@   ensures specNameLen(a, k) == specNameLen(b, k)
+//@   ensures forallIn(h, h+specNameLen(a, k), func(j int) bool { return ba[j] == bb[j] })
+//@   assert before ghostNameLen@1 specCompAt(ba, h+specNameLen(a, k-1), a[k-1])
+//@   assert before ghostNameLen@1 specCompAt(bb, h+specNameLen(b, k-1), b[k-1])
+//@   assert before ghostNameLen@1 specEqComp(a[k-1], b[k-1])
+func lemmaNameEncEqFwd(ba, bb []byte, h int, a, b Name, k int) {
+	if k <= 0 {
+		return
+	}
+	lemmaNameEncEqFwd(ba, bb, h, a, b, k-1)
+	o := h + ghostNameLen(a, k-1)
+	lemmaCompEncEqFwd(ba, bb, o, a[k-1], b[k-1])
+}
+
+// "equality coincides with equality of encodings", direction equal names => identical Bytes(), over the REAL methods.
+//
+//@ func lemmaEqualNamesSameBytes
+//@   opaque specCompAt specEqComp
+//@   uses lemmaNameLenMono
+//@   ensures result
+func lemmaEqualNamesSameBytes(a, b Name) bool {
+	if !a.Equal(b) {
+		return true
+	}
+	lemmaNameLenEq(a, b, len(a))
+	ba := a.Bytes()
+	bb := b.Bytes()
+	lemmaTLBytesEq(ba, 1, bb, 1)
+	lemmaNameEncEqFwd(ba, bb, 1+specTLSize(ba, 1), a, b, len(a))
+	return bytes.Equal(ba, bb)
+}
+
+// names, direction "identical encodings are encodings of equal names": if the buffers agree on the range that holds the
+// first k components of a, the first k components of b are the same components (induction on k; the sizes are NOT assumed
+// equal, they follow from the TLV headers).
+//
+//@ func lemmaNameEncEqBwd
+//@   opaque specCompAt specEqComp
+//@   uses lemmaNameLenMono
+//@   requires 0 <= k && k <= len(a) && k <= len(b)
+//@   requires 0 <= h && h <= 16 && h+specNameLen(a, k) <= len(ba) && h+specNameLen(b, k) <= len(bb)
+//@   requires forallIn(0, k, func(i int) bool { return specCompAt(ba, h+specNameLen(a, i), a[i]) })
+//@   requires forallIn(0, k, func(i int) bool { return specCompAt(bb, h+specNameLen(b, i), b[i]) })
+//@   requires forallIn(h, h+specNameLen(a, k), func(j int) bool { return ba[j] == bb[j] })
+//@   decreases k
+//@   ensures specEqPrefix(a, b, k) && specNameLen(a, k) == specNameLen(b, k)
+//@   assert before ghostNameLen@1 specCompAt(ba, h+specNameLen(a, k-1), a[k-1])
+//@   assert before ghostNameLen@1 specCompAt(bb, h+specNameLen(b, k-1), b[k-1])
+func lemmaNameEncEqBwd(ba, bb []byte, h int, a, b Name, k int) {
+	if k <= 0 {
+		return
+	}
+	lemmaNameEncEqBwd(ba, bb, h, a, b, k-1)
+	o := h + ghostNameLen(a, k-1)
+	lemmaCompEncEqBwd(ba, bb, o, a[k-1], b[k-1])
+}
+
+// A name with more components than k has a strictly longer encoding than its first k components (every component
+// occupies at least two bytes).
+//
+//@ func lemmaNameLenStrict
+//@   uses lemmaNameLenMono
+//@   requires 0 <= k && k < len(n)
+//@   ensures specNameLen(n, k) < specNameLen(n, len(n))
+func lemmaNameLenStrict(n Name, k int) {
+	lemmaTLLenRange(uint64(n[k].Typ))
+	lemmaTLLenRange(uint64(len(n[k].Val)))
+	lemmaNameLenUnfold(n, k+1)
+}
+
+//@ func lemmaNameLenUnfold
+//@   requires 1 <= k && k <= len(n)
+//@   ensures specNameLen(n, k) == specNameLen(n, k-1)+specCompLen(n[k-1])
+func lemmaNameLenUnfold(n Name, k int) {}
+
+// "equality coincides with equality of encodings", direction identical Bytes() => Equal, over the REAL methods.
+//
+//@ func lemmaSameBytesEqualNames
+//@   opaque specCompAt specEqComp
+//@   uses lemmaNameLenMono
+//@   ensures result
+func lemmaSameBytesEqualNames(a, b Name) bool {
+	ba := a.Bytes()
+	bb := b.Bytes()
+	if !bytes.Equal(ba, bb) {
+		return true
+	}
+	lemmaTLContent(ba, 1, bb, 1, len(ba)-1)
+	k := len(a)
+	if len(b) < k {
+		k = len(b)
+	}
+	lemmaNameEncEqBwd(ba, bb, 1+specTLSize(ba, 1), a, b, k)
+	if len(a) < len(b) {
+		lemmaNameLenStrict(b, len(a))
+	}
+	if len(b) < len(a) {
+		lemmaNameLenStrict(a, len(b))
+	}
+	return a.Equal(b)
+}
